@@ -45,6 +45,10 @@ pub(crate) struct Table<I: Interner> {
     strands: VecDeque<CanonicalStrand<I>>,
 
     pub(crate) answer_mode: AnswerMode,
+
+    /// The answers with delayed subgoals for which a refinement strand
+    /// has been created.
+    refined: Vec<AnswerIndex>,
 }
 
 index_struct! {
@@ -66,7 +70,18 @@ impl<I: Interner> Table<I> {
             answers_hash: FxHashMap::default(),
             strands: VecDeque::new(),
             answer_mode: AnswerMode::Complete,
+            refined: Vec::new(),
         }
+    }
+
+    /// Records that the delayed subgoals of `answer` are being evaluated by a
+    /// refinement strand; returns false if that was already the case.
+    pub(crate) fn mark_refined(&mut self, answer: AnswerIndex) -> bool {
+        if self.refined.contains(&answer) {
+            return false;
+        }
+        self.refined.push(answer);
+        true
     }
 
     /// Push a strand to the back of the queue of strands to be processed.
